@@ -60,7 +60,12 @@ def _count_assignments(fn):
             tgt = A.declref(x["c"][0])
         elif k == "UnaryOperator" and x["op"] in ("++", "--"):
             tgt = A.declref(x["c"][0])
-        elif k == "UnaryOperator" and x["op"] == "&":
+        elif k == "CallExpr" and x.get("callee") in ("std::modf", "modf") and len(x.get("args", [])) == 2:
+            # out-parameter of modf: handled precisely by the scanner (rebinding), not counted as opaque
+            o = A.strip(x["args"][1])
+            if o["k"] == "UnaryOperator" and o["op"] == "&":
+                o["_modf_out"] = True
+        elif k == "UnaryOperator" and x["op"] == "&" and not x.get("_modf_out"):
             tgt = A.declref(x["c"][0])
         if tgt is not None:
             cnt[tgt["decl"]] = cnt.get(tgt["decl"], 0) + 1
@@ -255,14 +260,13 @@ class Scanner:
             val = self._try(rhs)
             g, l = self._ctx()
             self.accesses.append(Access("store", base, idx, path, n, n["line"], g, l, n["op"], val, rhs, lnode))
+            self._modf_out(rhs)
             # bind single-assignment locals
             dr = A.declref(lhs)
             if dr is not None and n["op"] == "=" and self.assigned.get(dr["decl"], 0) == 1 and \
                     dr["decl"] in self.locals and "init" not in self.locals[dr["decl"]] and val is not None \
                     and not self._assigned_in_inner_loop(dr["decl"]):
                 self.tr.bind(dr["decl"], val)
-            # modf out-parameter
-            self._modf_out(rhs)
             return
         if k == "CXXOperatorCallExpr" and n.get("op") in ("=", "+=", "-=", "*=", "/=") and len(n.get("args", [])) == 2:
             lhs, rhs = n["args"]
@@ -325,14 +329,13 @@ class Scanner:
                 self.locals[d["decl"]] = d
                 if "init" in d:
                     self._loads(d["init"])
+                    v = self._try(d["init"])
                     self._modf_out(d["init"])
-                    if self.assigned.get(d["decl"], 0) == 0:
-                        v = self._try(d["init"])
-                        if v is not None:
-                            self.tr.bind(d["decl"], v)
+                    if self.assigned.get(d["decl"], 0) == 0 and v is not None:
+                        self.tr.bind(d["decl"], v)
                     g, l = self._ctx()
                     self.accesses.append(Access("store", d["name"], None, "", s, s["line"], g, l, "=",
-                                                self._try(d["init"]), d["init"], None))
+                                                v, d["init"], None))
         elif k == "ForStmt":
             h = A.for_header(s)
             if h is None:
